@@ -223,7 +223,12 @@ impl<S: AnyScan> Iso<S> {
 
     pub fn apply(&mut self, ev: &Ev, rep: &mut Report, path: &dyn Fn() -> Vec<String>) -> bool {
         let mut reported = false;
+        if let Ev::TickPoll(n, c) = ev {
+            self.now = self.now.saturating_add(*n);
+            return self.apply(&Ev::Poll(*c), rep, path);
+        }
         match ev {
+            Ev::TickPoll(..) => {}
             Ev::Tick(n) => self.now = self.now.saturating_add(*n),
             Ev::Reset => {
                 set_clock(self.now);
@@ -401,7 +406,11 @@ fn c15_for<S: AnyScan>(cfg: &Cfg, rep: &mut Report, timeouts: &[u64]) {
         while done < per {
             let t = *rng.pick(&timeouts);
             let tt = if t == u64::MAX { 5 * TICK } else { t };
-            let ticks = [1, tt / 2, tt.saturating_sub(1), tt, tt + 1];
+            let mut ticks = vec![1, tt / 2, tt.saturating_sub(1), tt, tt + 1];
+            #[cfg(feature = "std")]
+            if S::HAS_POLL && rng.chance(1, 2) {
+                ticks.extend_from_slice(&crate::poll::hostile_ticks(rng.below(tt.max(1))));
+            }
             let len = rng.range(10, 300);
             let chans = *rng.pick(&[2u8, 3, 4, 16, 16]);
             let nvalues = *rng.pick(&[2u8, 4, 128, 200, 200]);
@@ -499,6 +508,11 @@ impl<S: AnyScan> Sys for Transp<S> {
     fn step(&mut self, sym: &Ev, _rep: &mut Report, _path: &dyn Fn() -> Vec<String>) {
         match sym {
             Ev::Tick(n) => self.now += n,
+            Ev::TickPoll(n, c) => {
+                self.now += n;
+                set_clock(self.now);
+                self.s.poll_c(*c);
+            }
             Ev::Reset => {
                 set_clock(self.now);
                 self.s.reset_s();
@@ -652,6 +666,11 @@ fn c16_for<S: AnyScan>(cfg: &Cfg, rep: &mut Report, timeouts: &[u64]) {
                         now += n;
                         (Some(S::empty()), Some(S::empty()))
                     }
+                    Ev::TickPoll(n, c) => {
+                        now += n;
+                        set_clock(now);
+                        (plain.poll_c(c), noisy.poll_c(c))
+                    }
                     Ev::Reset => {
                         set_clock(now);
                         plain.reset_s();
@@ -793,6 +812,11 @@ fn apply_plain<S: AnyScan>(s: &mut S, now: &mut u64, e: &Ev) -> Option<S::Out> {
         Ev::Tick(n) => {
             *now += n;
             Some(S::empty())
+        }
+        Ev::TickPoll(n, c) => {
+            *now += n;
+            set_clock(*now);
+            s.poll_c(*c)
         }
         Ev::Reset => {
             set_clock(*now);
